@@ -94,6 +94,9 @@ type Journal struct {
 	// non-nil error is returned to the caller instead of performing the access (for a
 	// batch commit: nothing of the batch is applied). The entry is not yet in the journal.
 	Hook func(e *Entry) error
+	// CtxHook, if set, runs after Hook with the caller's context (e.g. to model a store that hangs until the
+	// caller gives up). Same contract as Hook.
+	CtxHook func(ctx context.Context, e *Entry) error
 }
 
 func NewJournal() *Journal { return &Journal{} }
@@ -174,6 +177,13 @@ func (s *Store) pre(ctx context.Context, op, key string, val []byte, batch int) 
 	}
 	if h := s.J.Hook; h != nil {
 		if err := h(&e); err != nil {
+			e.Err = err.Error()
+			s.J.add(e)
+			return e, err
+		}
+	}
+	if h := s.J.CtxHook; h != nil {
+		if err := h(ctx, &e); err != nil {
 			e.Err = err.Error()
 			s.J.add(e)
 			return e, err
